@@ -139,6 +139,7 @@ func (fe *FuncEnc) bindParams(callee *ssa.Function, args []Term) (map[string]Ter
 
 func (fe *FuncEnc) inline(f *Frame, callee *ssa.Function, name string, args []Term, st *State, path Term, pos token.Pos) []Term {
 	fe.inlined[name] = true
+	fe.dep(name)
 	short := name[strings.LastIndex(name, ".")+1:]
 	nf := fe.newFrame(callee, f, f.prefix+short+">")
 	nf.labelCnt = f.labelCnt
@@ -286,14 +287,25 @@ func (fe *FuncEnc) freshResults(callee *ssa.Function, st *State, path Term, tag 
 	return res
 }
 
+func (fe *FuncEnc) dep(name string) {
+	if fe.deps == nil {
+		fe.deps = map[string]bool{}
+	}
+	if name != "" && name != fe.name {
+		fe.deps[name] = true
+	}
+}
+
 func (fe *FuncEnc) callHavoc(f *Frame, callee *ssa.Function, name string, args []Term, st *State, path Term, pos token.Pos) []Term {
 	short := name[strings.LastIndex(name, ".")+1:]
+	fe.dep(name)
 	fe.havocModsDirty(st, fe.eng.modsetOf(callee), fe.eng.dirtyOf(callee), short)
 	return fe.freshResults(callee, st, path, short)
 }
 
 func (fe *FuncEnc) callByContract(f *Frame, callee *ssa.Function, name string, con *Contract, args []Term, st *State, path Term, pos token.Pos) []Term {
 	short := name[strings.LastIndex(name, ".")+1:]
+	fe.dep(name)
 	bind, _ := fe.bindParams(callee, args)
 	pre := st.clone()
 	cf := &Frame{fn: callee, params: bind, ptypes: map[string]types.Type{}}
@@ -533,6 +545,9 @@ func (fe *FuncEnc) doInvoke(f *Frame, x *ssa.Call, st *State, path Term) {
 		}
 	}
 	impls := fe.implementations(iface, method)
+	for _, m := range impls {
+		fe.dep(fe.eng.fnames[m])
+	}
 	if icon := fe.eng.ifaceCons[ifaceName+"."+method]; icon != nil {
 		// interface-level contract
 		var res []Term
